@@ -561,6 +561,10 @@ def run(run):
     run.floor('C10.e', 6)
     run.floor('C10.f', 4)
     run.floor('C10.g', 4)
+    # the capacity that was configured is the capacity the plan gets, in whatever order the configuration was written (type-level)
+    from gen import static_units
+    run.guard('configuration setters', static_units.report, run, 'C10.h', static_units.config_unit('C10.h'))
+    run.floor('C10.h', 1)
     run.explanation = (
         'Necessary structural conditions of the statement: capacity tests dominate every write of task storage and the full path '
         'is write-free; per-path effect sets of linkTask and PlanT::remove (all four neighbour cases); exactly-once count updates; '
